@@ -216,6 +216,13 @@ def keys_rules(ctx):
                 function=fq, expected="an EllipticCurve instance, e.g. supported_key_types[type]() (cryptography: 'curve must be an EllipticCurve instance')",
                 found=f"{arg!r} with table values {[repr(v) for v in tvals.values()][:3]}"[:300])
     R.rule("C15-D3b key type dispatch", 5, "each supported type generates a key of that type")
+    tp = Sym("param:" + [a_.arg for a_ in gp.node.args.args if a_.arg not in ("self", "cls")][0])
+    for c in calls:
+        alts_ = [t for g_, t in cases(c.args[0])]
+        by_type = all(isinstance(t, App) and any(isinstance(s_, App) and s_.op == "idx" and s_.args[1] == tp for s_ in subterms(t))
+                      and not any(isinstance(s_, App) and s_.op.startswith("attr:") and s_.op != "attr:supported_key_types" for s_ in subterms(t)) for t in alts_)
+        R.check("C15-D3b key type dispatch", by_type, "the curve is looked up with the requested type in this call", mod=gp.module, node=c.node, function=fq,
+                expected="supported_key_types[type]() - nothing remembered from an earlier call", found=f"{[repr(t)[:120] for t in alts_]}", key_extra="by-type")
     want = {"secp256r1": "SECP256R1", "secp384r1": "SECP384R1", "secp521r1": "SECP521R1"}
     for name, curve in want.items():
         v = tvals.get(name)
